@@ -127,6 +127,13 @@ Published(e, fam, c) ==
   /\ Chk("published-error-is-that-of-published-k", fam # "req" => e.epsD = e.epsPkD)
   /\ Chk("published-k<=smallest-contributing-k", PublishedKOK(fam, e.pk, c, e.est))
 CkOf(i) == IF i \in DOMAIN ck THEN ck[i] ELSE Big
+\* a REFUSED call (NaN update, invalid query, merge of an incompatible operand) leaves every observable of the target as it was:
+\* n and the extremes (the ghost is not advanced), k, estimation mode, retained count, and the retained items with their weights
+Unchanged(e, o) ==
+  Chk("refused-call-leaves-target-unchanged",
+      /\ e.n = o.n /\ e.k = o.k /\ e.est = o.est /\ e.nret = o.nret
+      /\ (o.n > 0 => e.minD = o.minI /\ e.maxD = o.maxI)
+      /\ ((Has(e, "pairs") /\ o.pairs # NoObs) => e.pairs = o.pairs))
 TBegin == IsEvent("Begin") /\ obj' = <<>> /\ blob' = <<>> /\ ck' = <<>> /\ sh' = <<>>
 TNew == IsEvent("New") /\ LET e == Log[l]  o == WithObs(Fresh(e.fam, e.k), Post(e)) IN
           /\ Named(o, e) /\ New(e.id, e.fam, Post(e)) /\ ck' = (e.id :> Big) @@ ck /\ UNCHANGED blob
@@ -138,6 +145,7 @@ TUpdate == IsEvent("Update") /\ LET e == Log[l]  o == WithObs(AfterUpdate(obj[e.
 TUpdateNaN == IsEvent("UpdateNaN") /\ LET e == Log[l]  o == WithObs(obj[e.id], Post(e)) IN
           \* NaN is rejected: n, extremes and retained count as before
           /\ Chk("nan-rejected", e.n = obj[e.id].n /\ e.nret = obj[e.id].nret)
+          /\ Unchanged(e, obj[e.id]) /\ LevelsOK(e, ShOf(e.id))
           /\ Named(o, e) /\ Observe(e.id, Post(e)) /\ UNCHANGED <<blob, ck, sh>>
 TMerge == IsEvent("Merge") /\ LET e == Log[l]  o == WithObs(AfterMerge(obj[e.dst], obj[e.src]), Post(e)) IN
           /\ Named(o, e) /\ Merge(e.dst, e.src, e.rv, Post(e)) /\ TwinOK(e, o) /\ UNCHANGED blob
@@ -175,12 +183,20 @@ TTruncStream == IsEvent("TruncStream") /\ LET e == Log[l] IN
           /\ UNCHANGED <<obj, blob, ck, sh>>
 TDestroy == IsEvent("Destroy") /\ LET e == Log[l] IN Destroy(e.id) /\ UNCHANGED <<blob, ck, sh>>
 \* invalid queries must throw: any query of an empty sketch, normalized rank outside [0,1], NaN / unsorted / repeated split points
+\* after a refused call: the projection of the target is the one before the call (queries that build the sorted view sort level 0
+\* in place, which the bag of pairs does not see; the tier-B shadow follows)
+RefusedOK(e) == LET o == WithObs(obj[e.id], Post(e))  d == IF e.sorts /\ obj[e.id].n > 0 THEN ShSorted(ShOf(e.id)) ELSE ShOf(e.id) IN
+          /\ Unchanged(e, obj[e.id]) /\ Named(o, e) /\ TwinOK(e, o) /\ LevelsOK(e, d)
+          /\ Observe(e.id, Post(e)) /\ sh' = ShSet((e.id :> d) @@ sh) /\ UNCHANGED <<blob, ck>>
 TInvalid == IsEvent("Invalid") /\ LET e == Log[l] IN
           /\ Chk("harness:empty-query-on-empty-sketch", e.onempty => obj[e.id].n = 0)
           /\ Chk("invalid-query-rejected", e.threw)
-          \* get_CDF / get_PMF build the sorted view (sorting level 0) before they inspect the split points
-          /\ sh' = ShSet(IF ~e.onempty /\ e.sorts THEN (e.id :> ShSorted(ShOf(e.id))) @@ sh ELSE sh)
-          /\ UNCHANGED <<obj, blob, ck>>
+          /\ RefusedOK(e)
+\* a merge the family must refuse (REQ: an operand of the other accuracy mode), offered to a live sketch that continues afterwards
+TRefused == IsEvent("Refused") /\ LET e == Log[l] IN
+          /\ Chk("incompatible-merge-refused", e.mustthrow => e.threw)
+          /\ Chk("harness:refused-operand", e.threw \/ e.opn = 0)      \* only an empty operand may be accepted (and changes nothing)
+          /\ RefusedOK(e)
 TSer == IsEvent("Ser") /\ LET e == Log[l]  o == WithObs(obj[e.id], Post(e)) IN
           /\ Named(o, e) /\ Observe(e.id, Post(e))
           /\ Chk("C09:bytes=stream", e.img = e.simg)
@@ -204,7 +220,7 @@ TDeser == IsEvent("Deser") /\ LET e == Log[l]  b == blob[e.blob]  v == b.val  o 
           /\ obj' = (e.dst :> o) @@ obj /\ ck' = (e.dst :> b.ck) @@ ck /\ sh' = ShSet((e.dst :> ShRestored(b.sh, Coins(e))) @@ sh) /\ UNCHANGED blob
 
 TInit == obj = <<>> /\ l = 1 /\ blob = <<>> /\ ck = <<>> /\ sh = <<>>
-TNext == TBegin \/ TNew \/ TUpdate \/ TUpdateNaN \/ TMerge \/ TObs \/ TCopy \/ TConvert \/ TConvertReversed \/ TTruncStream \/ TDestroy \/ TInvalid \/ TSer \/ TDeser
+TNext == TBegin \/ TNew \/ TUpdate \/ TUpdateNaN \/ TMerge \/ TObs \/ TCopy \/ TConvert \/ TConvertReversed \/ TTruncStream \/ TRefused \/ TDestroy \/ TInvalid \/ TSer \/ TDeser
 TSpec == TInit /\ [][TNext]_tvars
 \* cheap per-state invariant (the clauses are evaluated by name at every event)
 TInv == TRUE
